@@ -176,7 +176,11 @@ func c18History(c *Case) {
 		case k < 80:
 			h.stepDelItem(path)
 		case k < 90:
-			h.stepReload()
+			if r.Bool() {
+				h.stepReload()
+			} else {
+				h.stepRestart()
+			}
 			if r.Chance(50) {
 				h.sweep(p.paths[:3], false)
 			}
@@ -263,6 +267,60 @@ func c18YamlFinding(c *Case) {
 	c.Dist("yaml-unsafe/round-trips")
 }
 
+// c18EmptyReload: create-category -> reload -> post, and post -> delete all -> reload -> post: an empty
+// category must survive a reload / restart as a category one can post into.
+func c18EmptyReload(c *Case) {
+	r := c.R
+	h, err := newC18Run(c)
+	if err != nil {
+		c.Disagree("testserver", err.Error())
+		return
+	}
+	defer h.ts.Close()
+	bundle := c18Name(r)
+	name := c18Name(r)
+	for string(name) == string(bundle) {
+		name = c18Name(r)
+	}
+	path := [][]byte{name}
+	if c.Idx%2 == 1 { // nested
+		h.stepCreate(nil, bundle, false)
+		path = [][]byte{bundle, name}
+	}
+	h.stepCreate(path[:len(path)-1], name, true)
+	variant := (c.Idx / 2) % 3
+	n := 0
+	if variant > 0 { // fill, then delete everything
+		n = 1 + r.Intn(3)
+		for i := 0; i < n; i++ {
+			h.stepPost(path, 0, idField(r, 0), c18Text(r, 40), c18Text(r, 20), c18Text(r, 60))
+		}
+		for id := n; id >= 1; id-- {
+			k := uint32(id)
+			if variant == 2 {
+				k = uint32(n - id + 1) // oldest first
+			}
+			h.stepDelArt(path, k, idField(r, k))
+		}
+	}
+	if c.Idx%4 < 2 {
+		h.stepRestart()
+	} else {
+		h.stepReload()
+	}
+	c.Dist(fmt.Sprintf("empty-reload/variant-%d", variant))
+	title := c18Text(r, 60)
+	h.stepPost(path, 0, idField(r, 0), title, c18Text(r, 20), c18Text(r, 100))
+	a := h.ts.Srv.ThreadedNewsMgr.GetArticle(strs(path), 1)
+	if a == nil || a.Title != string(title) {
+		h.viol("post-into-empty-category-fails", "after a reload the article posted into the empty category is not retrievable under id 1")
+	}
+	h.stepPost(path, 1, idField(r, 1), c18Text(r, 60), c18Text(r, 20), c18Text(r, 100))
+	h.secondStore([][][]byte{path})
+	h.finish()
+	c.Nontrivial(strings.Join(h.toks, " "))
+}
+
 // c18LongThread: one category with 260-330 small articles (ids beyond one byte), some deletes in between.
 func c18LongThread(c *Case) {
 	r := c.R
@@ -309,6 +367,7 @@ func init() {
 			"the article date is the server clock at the time of the post (taken from the stored article and given to the model as input)",
 		}
 		x.Add(&Family{Name: "histories", Quick: 2000, Thor: 20000, Run: c18History})
+		x.Add(&Family{Name: "empty-category-reload", Quick: 48, Thor: 600, Run: c18EmptyReload})
 		x.Add(&Family{Name: "long-thread", Quick: 6, Thor: 60, Run: c18LongThread})
 		x.Add(&Family{Name: "yaml-unsafe-strings", Quick: 20, Thor: 200, Run: c18YamlFinding})
 	}
